@@ -4296,6 +4296,7 @@ let step_stream s a e =
 type call =
 | InIdle
 | InStart
+| InStartBusy
 | InStartFail
 | InStop
 | InAbort
@@ -4305,6 +4306,7 @@ type gev =
 | GConfigure of bool * bool * n * n
 | GStartCall
 | GStartRet of bool
+| GStartRefused
 | GStopCall
 | GStopRet
 | GAbortCall
@@ -4756,22 +4758,31 @@ let step y = function
    | GStartCall ->
      (match y.in_call with
       | InIdle ->
-        if (&&) ((&&) ((||) y.st0.valid y.st1.valid) (workers_idle y.st0))
-             (workers_idle y.st1)
-        then Some
-               (set (fun s -> s.st1) (fun f ->
-                 let s = fun r -> f r.st1 in
-                 (fun x -> { st0 = x.st0; st1 = (s x); api = x.api; in_call =
-                 x.in_call })) begin_start
-                 (set (fun s -> s.st0) (fun f ->
-                   let s = fun r -> f r.st0 in
-                   (fun x -> { st0 = (s x); st1 = x.st1; api = x.api;
-                   in_call = x.in_call })) begin_start
-                   (set (fun s -> s.in_call) (fun f ->
-                     let c = fun r -> f r.in_call in
-                     (fun x -> { st0 = x.st0; st1 = x.st1; api = x.api;
-                     in_call = (c x) })) (fun _ -> InStart) y)))
-        else None
+        if (||) y.st0.valid y.st1.valid
+        then if (&&) (workers_idle y.st0) (workers_idle y.st1)
+             then Some
+                    (set (fun s -> s.st1) (fun f ->
+                      let s = fun r -> f r.st1 in
+                      (fun x -> { st0 = x.st0; st1 = (s x); api = x.api;
+                      in_call = x.in_call })) begin_start
+                      (set (fun s -> s.st0) (fun f ->
+                        let s = fun r -> f r.st0 in
+                        (fun x -> { st0 = (s x); st1 = x.st1; api = x.api;
+                        in_call = x.in_call })) begin_start
+                        (set (fun s -> s.in_call) (fun f ->
+                          let c = fun r -> f r.in_call in
+                          (fun x -> { st0 = x.st0; st1 = x.st1; api = x.api;
+                          in_call = (c x) })) (fun _ -> InStart) y)))
+             else Some
+                    (set (fun s -> s.in_call) (fun f ->
+                      let c = fun r -> f r.in_call in
+                      (fun x -> { st0 = x.st0; st1 = x.st1; api = x.api;
+                      in_call = (c x) })) (fun _ -> InStartBusy) y)
+        else Some
+               (set (fun s -> s.in_call) (fun f ->
+                 let c = fun r -> f r.in_call in
+                 (fun x -> { st0 = x.st0; st1 = x.st1; api = x.api; in_call =
+                 (c x) })) (fun _ -> InStartFail) y)
       | _ -> None)
    | GStartRet ok ->
      (match y.in_call with
@@ -4860,6 +4871,26 @@ let step y = function
                        let c = fun r -> f r.in_call in
                        (fun x -> { st0 = x.st0; st1 = x.st1; api = x.api;
                        in_call = (c x) })) (fun _ -> InIdle) y))))
+        else None
+      | _ -> None)
+   | GStartRefused ->
+     (match y.in_call with
+      | InStartBusy ->
+        let s = if y.st0.valid then y.st0 else y.st1 in
+        if hst_eqb s.sto_st HRunning
+        then Some
+               (set (fun s0 -> s0.in_call) (fun f ->
+                 let c = fun r -> f r.in_call in
+                 (fun x -> { st0 = x.st0; st1 = x.st1; api = x.api; in_call =
+                 (c x) })) (fun _ -> InStartFail)
+                 (set (fun s0 -> s0.st1) (fun f ->
+                   let s0 = fun r -> f r.st1 in
+                   (fun x -> { st0 = x.st0; st1 = (s0 x); api = x.api;
+                   in_call = x.in_call })) fail_start
+                   (set (fun s0 -> s0.st0) (fun f ->
+                     let s0 = fun r -> f r.st0 in
+                     (fun x -> { st0 = (s0 x); st1 = x.st1; api = x.api;
+                     in_call = x.in_call })) fail_start y)))
         else None
       | _ -> None)
    | GStopCall ->
